@@ -6,7 +6,7 @@ returned; when the solver stops before max_iter the model gradient norm at the r
 point); multiplying all weights by a constant changes nothing; list and array weights agree."""
 import warnings
 import numpy as np
-from common import bits, lean_run, parse_ok_floats, quiet
+from common import bits, lean_run, parse_ok_floats, quiet, f2b
 import zoo
 import metric_learn.lsml as ml
 from metric_learn import LSML, LSML_Supervised
@@ -31,6 +31,7 @@ def run(R, tier, seed, driver_ok):
               'tol × max_iter; LSML and LSML_Supervised; feasible-prior cases. case = (quadruplets, options); all non-trivial')
     R.assumptions = ['inv / slogdet / eigh are external; the twin uses its own Gauss–Jordan on the (SPD) result']
     lines, meta = [], []
+    runlines, runmeta = [], []
     for rep in range(reps):
         d = int(rng.randint(2, 6))
         X, y = zoo.blobs(rng, d)
@@ -70,8 +71,17 @@ def run(R, tier, seed, driver_ok):
         def spy(*a, **k):
             out = orig(*a, **k)
             store['M0'] = np.array(out[0], copy=True); store['Pinv'] = np.array(out[1], copy=True)
+            store['eigh'] = []                       # (decompositions asked for by the solver loop from here on)
             return out
         ml._initialize_metric_mahalanobis = spy
+        o_eigh = ml.scipy.linalg.eigh
+
+        def spy_eigh(a_, *aa, **kk_):
+            out = o_eigh(a_, *aa, **kk_)
+            if 'eigh' in store and not aa and not kk_:
+                store['eigh'].append((np.array(out[0], copy=True), np.array(out[1], copy=True)))
+            return out
+        ml.scipy.linalg.eigh = spy_eigh
         try:
             with warnings.catch_warnings():
                 warnings.simplefilter('ignore')
@@ -91,6 +101,7 @@ def run(R, tier, seed, driver_ok):
             continue
         finally:
             ml._initialize_metric_mahalanobis = orig
+            ml.scipy.linalg.eigh = o_eigh
         M0, Pinv = store['M0'], store['Pinv']
         want0, cond0 = zoo.documented_prior(prior_kind, quads, prior if prior_kind == 'array' else None)
         if want0 is not None and np.abs(M0 - want0).max() > max(1e-9, 1e3 * 2.3e-16 * cond0) * max(np.abs(want0).max(), 1e-300):
@@ -138,6 +149,15 @@ def run(R, tier, seed, driver_ok):
                             R.violation(f'LSML/weights-{tag}', f'{tag} weights change the learned metric (objective {l2:.8g} vs {l1:.8g}, max diff {np.abs(M2 - M).max() / nm:.3g}; n_iter_ {ee.n_iter_} vs {est.n_iter_}, gradient norms {np.linalg.norm(G2_):.3g} vs {gn:.3g})', case)
                 except Exception as e:
                     R.violation(f'LSML/weights-variant-raises-{type(e).__name__}', f'weights variant raised {type(e).__name__}: {str(e)[:100]}', case)
+        # the whole solver loop replayed by the model with the implementation's own eigen-decompositions as oracle
+        recs = store.get('eigh', [])
+        if max_iter <= 50 and len(recs) % 10 == 0 and len(recs) <= 10 * max_iter:
+            flat = ' '.join(bits(np.concatenate([w_, V_.ravel()])) for w_, V_ in recs)
+            for M0_ in (M0, M0 * (1 + 2.2e-16 * rng.randn(*M0.shape))):
+                M0s = (M0_ + M0_.T) / 2
+                runlines.append(f'lsml_run {d} {nq} {bits(M0s)} {bits(Pinv)} {bits(vab)} {bits(vcd)} {bits(w)} {f2b(tol)} {max_iter} '
+                                f'{bits(np.logspace(-10, 0, 10))} {len(recs)} {flat}')
+            runmeta.append((M.copy(), int(est.n_iter_), dict(case)))
         # what the implementation's own _total_loss / _gradient return at its result (with its own normalised weights)
         try:
             li = float(est._total_loss(M, vab, vcd, Pinv)); Gi = np.asarray(est._gradient(M, vab, vcd, Pinv))
@@ -180,7 +200,29 @@ def run(R, tier, seed, driver_ok):
                 R.broken('correspondence:C12:lsml_eval', f'twin objective/gradient differ from the reference evaluation (loss {v[0]} vs {l1})', case)
             elif li is not None and (abs(v[0] - li) > 1e-8 * max(1.0, abs(li)) or Gi.shape != G1.shape or np.abs(v[1:] - Gi.ravel()).max() > 1e-7 * max(1.0, np.abs(Gi).max())):
                 R.broken('correspondence:C12:lsml_impl', f"the model's objective/gradient (C12_first_order is about them) differ from the implementation's _total_loss/_gradient at the learned matrix (loss {v[0]} vs {li}, max gradient difference {np.abs(v[1:] - Gi.ravel()).max() if Gi.shape == G1.shape else 'shape'})", case)
-        R.extra['traces_validated_against_impl'] = len(lines)
+        outs = lean_run(runlines)
+        worst = 0.0
+        for i_, (Mf, nit, case) in enumerate(runmeta):
+            o1, o2 = outs[2 * i_], outs[2 * i_ + 1]
+            tk = o1.split()
+            if tk[:1] != ['ok'] or len(tk) < 4:
+                R.broken('driver:lsml_run', f'model driver answered {o1[:80]}', case); continue
+            v = parse_ok_floats('ok ' + ' '.join(tk[2:]))
+            vp = parse_ok_floats('ok ' + ' '.join(o2.split()[2:])) if o2.startswith('ok') else None
+            Mm = v[2:].reshape(Mf.shape)
+            scale = max(np.abs(Mf).max(), 1e-300)
+            sens = 1.0 if (vp is None or vp.size != v.size or o2.split()[1] != tk[1]) else float(np.abs(vp[2:] - v[2:]).max()) / scale
+            if 1e3 * sens > 1e-4:
+                R.count('lsml_run:skipped-rounding-sensitive'); continue
+            rel = float(np.abs(Mm - Mf).max()) / scale
+            worst = max(worst, rel)
+            if rel > 1e-8 + 1e3 * sens or int(tk[1]) != nit:
+                R.broken('correspondence:C12:lsml_run', f'the model of the solver loop (gradient, ten candidate steps, eigenvalue flooring, strict-improvement scan, stop rules) ends after {tk[1]} iterations at a matrix that differs from the learned one by {rel:.3g} (relative; implementation n_iter_={nit}; rounding sensitivity {sens:.3g})', case)
+            elif v[1] > 1e-7 * scale:
+                R.broken('correspondence:C12:eigh-contract', f'a recorded eigen-decomposition does not reconstruct the candidate the model forms (max deviation {v[1]:.3g})', case)
+        R.count('lsml_run_traces', len(runmeta))
+        R.extra['lsml_run_worst_relative_difference'] = worst
+        R.extra['traces_validated_against_impl'] = len(lines) + len(runmeta)
 
 
 def replay(R, obj):
